@@ -74,6 +74,19 @@ def run_families(c, families, binp, nontrivial, procs=4):
                     simulate={'num': fam.get('sims', 100)}, depth=fam.get('simops', depth + 4) + 1, seed=c.seed, timeout=900)
         sb = tlc.sim_behaviours(s)
         tlc.cleanup(s)
+        nclasses = 0
+        if fam.get('select'):
+            # feature-guided choice among many cheap -simulate behaviours: at most per_class behaviours of every class
+            # the family's select() function distinguishes (None = not interesting)
+            classes = {}
+            for b in sb:
+                k = fam['select'](b)
+                if k is not None and len(classes.setdefault(k, [])) < fam.get('per_class', 2):
+                    classes[k].append(b)
+            sb = [b for k in sorted(classes) for b in classes[k]]
+            nclasses = len(classes)
+            c.log('family %-26s %d classes of behaviours selected by %s' % (fam['name'], nclasses, fam['select'].__name__))
+            tot['classes'] = tot.get('classes', 0) + nclasses
         allb = behs + sb
         tot['edges'] += len(edges)
         tot['uncovered'] += unc
@@ -94,6 +107,7 @@ def run_families(c, families, binp, nontrivial, procs=4):
             again = c.run_harness_parallel(binp, ['-cfg', json.dumps(hcfg)], [b], name='repro', procs=1, timeout=600)
             if not [x for x in again['violations'] if x['signature'] == v['signature']]:
                 c.unreproduced('violation %s (family %s) not reproduced on a second run: %s' % (v['signature'], fam['name'], v['detail'][:300]))
+                continue
             c.report(v['signature'], v['detail'], {'behaviour': b, 'harness': 'eng', 'cfg': hcfg, 'family': fam['name']})
         tot['behaviours'] += res['behaviours']
         tot['steps'] += res['steps']
